@@ -29,6 +29,8 @@
 #include <iostream>
 #include <streambuf>
 #include <set>
+#include <typeinfo>
+#include <dlfcn.h>
 using namespace SimTK;
 using namespace vh;
 
@@ -43,6 +45,26 @@ struct CoutSilencer {
     CoutSilencer() { old = std::cout.rdbuf(&nb); }
     ~CoutSilencer() { std::cout.rdbuf(old); }
 };
+}
+
+// Observation point for exceptions that the library catches internally (Assembler::assemble()
+// and track() swallow an optimizer failure when the assembly errors happen to be within
+// tolerance): count every C++ throw and remember the last SimTK message.
+static bool g_verbose = false;
+static int g_forceNumGrad = -1, g_forceNumJac = -1;    // debugging overrides (--numgrad 0|1, --numjac 0|1)
+static long g_throws = 0;
+static char g_lastThrow[240] = "";
+extern "C" void __cxa_throw(void* obj, std::type_info* ti, void (*dtor)(void*)) {
+    typedef void (*Fn)(void*, std::type_info*, void (*)(void*));
+    static Fn real = (Fn)dlsym(RTLD_NEXT, "__cxa_throw");
+    ++g_throws;
+    g_lastThrow[0] = 0;
+    if (ti && (*ti == typeid(SimTK::Exception::OptimizerFailed) || *ti == typeid(SimTK::Exception::Base))) {
+        const SimTK::Exception::Base* b = static_cast<const SimTK::Exception::Base*>(obj);
+        strncpy(g_lastThrow, b->getMessageText().c_str(), sizeof g_lastThrow - 1); g_lastThrow[sizeof g_lastThrow - 1] = 0;
+    } else if (ti) { strncpy(g_lastThrow, ti->name(), sizeof g_lastThrow - 1); g_lastThrow[sizeof g_lastThrow - 1] = 0; }
+    real(obj, ti, dtor);
+    abort();
 }
 
 static bool isNI(int t) {   // qdot == u, q numbering independent of the rotation representation
@@ -292,7 +314,7 @@ struct Prob {
     }
 };
 
-struct EvalOut { double errNorm = 0, goal = 0, gM = 0, gMnoGround = 0, gO = 0, gQ = 0, gC = 0; bool groundMarkerActive = false; std::vector<double> mErr, oErr; std::vector<Transform> X; bool finite = true; int nErr = 0; double wsum = 0; };
+struct EvalOut { double errNorm = 0, goal = 0, gM = 0, gMnoGround = 0, gO = 0, gQ = 0, gC = 0; bool groundMarkerActive = false; std::vector<double> mErr, oErr; std::vector<Transform> X; bool finite = true; int nErr = 0; double wsum = 0; std::vector<double> errs; };
 
 // Harness-side recomputation of everything the Assembler reports, from the definitions, on the
 // Euler twin 'tw' with coordinates q and time t. Constraint errors come from 'errState' if given
@@ -343,7 +365,7 @@ static EvalOut evaluate(const Sys& S, const Prob& P, const State& tw, const Vect
     std::vector<double> he = errState ? holoErrs(S, *errState) : holoErrs(S, f);
     if (std::isinf(P.sysW)) errs.insert(errs.end(), he.begin(), he.end());
     else if (P.sysW > 0) { std::vector<double> hi = holoErrs(S, f); double s2 = 0; for (double x : hi) s2 += x * x; o.gC = P.sysW * s2 / 2; o.goal += o.gC; o.wsum += P.sysW; }
-    o.nErr = (int)errs.size();
+    o.nErr = (int)errs.size(); o.errs = errs;
     o.errNorm = normOf(errs, P.rms);
     o.finite = std::isfinite(o.goal) && std::isfinite(o.errNorm);
     return o;
@@ -457,6 +479,8 @@ static void genProblem(Rng& r, const Sys& S, Prob& P, long idx, bool unlistedTai
         int n = r.integer(1, 3);
         for (int j = 0; j < n; ++j) { int k = r.pick(withQ); BoundD b; b.node = k; b.qi = r.integer(0, S.nq(k) - 1); b.lo = -Infinity; b.hi = Infinity; P.bounds.push_back(b); }
     }
+    if (g_forceNumGrad >= 0) P.numGrad = g_forceNumGrad != 0;
+    if (g_forceNumJac >= 0) P.numJac = g_forceNumJac != 0;
     (void)idx;
 }
 
@@ -470,23 +494,63 @@ struct AsmRun {
 
 static double prescribedValue(const Mot& mo, double t) { return mo.amp * std::sin(mo.rate * t + mo.phase); }
 
+// Harness-side first-order test at a returned point: central-difference gradient of the recomputed
+// goal w.r.t. the free coordinates, with coordinates sitting on an active bound removed and the
+// remainder projected on the tangent space of the assembly-error equations. Returns |g_proj|_inf.
+static double projectedGradient(const Sys& S, const Prob& P, const State& tw, const Vector& q, double t) {
+    std::vector<int> F; for (int i = 0; i < q.size(); ++i) if (!P.fixedQ[i] && !P.prescQ[i]) F.push_back(i);
+    const int n = (int)F.size(); const double h = 1e-6;
+    EvalOut e0 = evaluate(S, P, tw, q, t, nullptr); const int m = (int)e0.errs.size();
+    std::vector<double> g(n, 0.0); std::vector<std::vector<double>> J(m, std::vector<double>(n, 0.0));
+    for (int k = 0; k < n; ++k) {
+        Vector qp = freshQ(q), qm = freshQ(q); qp[F[k]] += h; qm[F[k]] -= h;
+        EvalOut ep = evaluate(S, P, tw, qp, t, nullptr), em = evaluate(S, P, tw, qm, t, nullptr);
+        g[k] = (ep.goal - em.goal) / (2 * h);
+        for (int r = 0; r < m; ++r) J[r][k] = (ep.errs[r] - em.errs[r]) / (2 * h);
+    }
+    for (auto& b : P.bounds) {
+        int ix = S.q0(b.node) + b.qi;
+        for (int k = 0; k < n; ++k) if (F[k] == ix) {
+            bool atLo = q[ix] - b.lo <= 1e-5 && g[k] > 0, atHi = b.hi - q[ix] <= 1e-5 && g[k] < 0;
+            if (atLo || atHi) { g[k] = 0; for (int r = 0; r < m; ++r) J[r][k] = 0; }
+        }
+    }
+    // modified Gram-Schmidt on the rows of J, then remove their span from g
+    std::vector<std::vector<double>> Qr;
+    for (int r = 0; r < m; ++r) {
+        std::vector<double> v = J[r]; double n0 = 0; for (double x : v) n0 += x * x; n0 = std::sqrt(n0);
+        for (auto& u : Qr) { double d = 0; for (int k = 0; k < n; ++k) d += u[k] * v[k]; for (int k = 0; k < n; ++k) v[k] -= d * u[k]; }
+        double n1 = 0; for (double x : v) n1 += x * x; n1 = std::sqrt(n1);
+        if (g_verbose) fprintf(stderr, "  projGrad: row %d |row|=%.3e residual=%.3e\n", r, n0, n1);
+        if (n1 <= 1e-6 * std::max(n0, 1e-12)) continue;
+        for (double& x : v) x /= n1; Qr.push_back(v);
+    }
+    for (auto& u : Qr) { double d = 0; for (int k = 0; k < n; ++k) d += u[k] * g[k]; for (int k = 0; k < n; ++k) g[k] -= d * u[k]; }
+    double w = 0; for (double x : g) w = std::max(w, std::fabs(x));
+    if (g_verbose) { fprintf(stderr, "  projGrad: n=%d m=%d rank=%d |g_proj|=%.3e g=", n, m, (int)Qr.size(), w); for (double x : g) fprintf(stderr, " %.2e", x); fprintf(stderr, "\n"); }
+    return w;
+}
+
 // Judge one returned assemble()/track() call.
 static void judgeAssembler(Ctx& c, AsmRun& R, Assembler& A, const std::string& api, double reported,
                            const State& userAfter, const Vector& qBeforeI, double tBefore, double tAfterExpected,
-                           bool achievableNow, bool smallStart, const Vector& qTargetE) {
+                           bool achievableNow, bool smallStart, const Vector& qTargetE, long throwsDuringCall) {
     const Sys& S = R.S; const Prob& P = R.P;
     const double tol = P.tolInUse(), acc = P.accInUse();
     const State& I = A.getInternalState();
+    const std::string apiFull = api;
+    const std::string apiK = api == "track" ? "track" : "assemble";   // key component (stable, few values)
+    bool limits = false; for (auto& b : P.bounds) { int ix = S.q0(b.node) + b.qi; if (!P.fixedQ[ix] && !P.prescQ[ix]) limits = true; }
     Vector qI = freshQ(I.getQ()); double tI = I.getTime();
     auto W = [&](const EvalOut* e = nullptr) {
-        Json j = Json::obj().set("api", api).set("model", S.m.desc.shortStr()).set("userEuler", S.userEuler).set("cons", S.conTypes())
+        Json j = Json::obj().set("api", apiFull).set("model", S.m.desc.shortStr()).set("userEuler", S.userEuler).set("cons", S.conTypes())
             .set("kinds", P.kinds()).set("restr", P.restr()).set("tol", tol).set("acc", acc).set("rms", P.rms).set("reportedGoal", reported).set("achievable", achievableNow).set("delta", P.delta);
         if (e) j.set("errNorm", e->errNorm).set("goal", e->goal).set("gM", e->gM).set("gO", e->gO).set("gQ", e->gQ).set("gC", e->gC);
         return j;
     };
     c.setPhase("judge " + api);
     // ---- 0. finite
-    if (!std::isfinite(reported) || !allFinite(qI) || !allFinite(userAfter.getQ())) { c.viol("asm:nonfinite:" + api, W()); return; }
+    if (!std::isfinite(reported) || !allFinite(qI) || !allFinite(userAfter.getQ())) { c.viol("asm:nonfinite:" + apiK, W()); return; }
     // ---- 1. the Assembler works on the client's instance-level settings
     {
         bool lostEnable = false, lostLock = false; std::string which;
@@ -502,7 +566,9 @@ static void judgeAssembler(Ctx& c, AsmRun& R, Assembler& A, const std::string& a
         }
     }
     EvalOut e = evaluate(S, P, R.twin, qI, tI, &userAfter);
-    if (!e.finite) { c.viol("asm:nonfinite-recomputed:" + api, W(&e)); return; }
+    if (!e.finite) { c.viol("asm:nonfinite-recomputed:" + apiK, W(&e)); return; }
+    c.obs("asm:optimizer:" + std::string(e.nErr > 0 ? "ipopt" : limits ? "lbfgsb" : "lbfgs"));
+    if (throwsDuringCall > 0) c.obs(std::string("asm:swallowed:") + (P.numGrad ? "numeric-gradient:" : "analytic-gradient:") + normMsg(g_lastThrow));
     // ---- 2. client state <- internal state
     {
         State f = userAfter; f.updQ() = freshQ(userAfter.getQ()); S.m.sys.realize(f, Stage::Position);
@@ -510,27 +576,33 @@ static void judgeAssembler(Ctx& c, AsmRun& R, Assembler& A, const std::string& a
         for (int k = 0; k < S.nNodes(); ++k) { const Transform& X = S.m.bodies[k].getBodyTransform(f); dp = std::max(dp, (X.p() - e.X[k].p()).norm()); dR = std::max(dR, rotDiff(X.R(), e.X[k].R())); sc = std::max(sc, X.p().norm()); }
         c.check("asm-update:transform-mismatch:" + std::string(S.userEuler ? "euler" : "quat"), std::max(dp / sc, dR), 1e-12, [&] { return W(&e).set("dp", dp).set("dR", dR); });
         bool uSame = userAfter.getNU() == R.user0.getNU(); for (int i = 0; uSame && i < userAfter.getNU(); ++i) uSame = bitEq(userAfter.getU()[i], R.user0.getU()[i]);
-        c.require("asm-update:u-changed:" + api, uSame, [&] { return W(&e); });
+        c.require("asm-update:u-changed:" + apiK, uSame, [&] { return W(&e); });
         c.check("asm-update:quaternion-norm", quatDefect(S, userAfter), 1e-13, [&] { return W(&e); });
     }
     // ---- 3. assembly errors within tolerance (documented norm), and the reported norm is the real one
-    c.check("asm-errnorm:" + api + (P.rms ? ":rms" : ":inf"), e.errNorm, tol * (1 + 1e-9) + 1e-14, [&] { return W(&e).set("nErr", e.nErr); });
+    c.check("asm-errnorm:" + apiK + (P.rms ? ":rms" : ":inf"), e.errNorm, tol * (1 + 1e-9) + 1e-14, [&] { return W(&e).set("nErr", e.nErr); });
     {
         EvalOut ei = evaluate(S, P, R.twin, qI, tI, nullptr);
         double rep = A.calcCurrentErrorNorm();
-        c.check("asm-errnorm-reported:" + api, std::fabs(rep - ei.errNorm), 1e-10 * (1 + ei.errNorm) , [&] { return W(&ei).set("calcCurrentErrorNorm", rep); });
+        c.check("asm-errnorm-reported:" + apiK, std::fabs(rep - ei.errNorm), 1e-10 * (1 + ei.errNorm) , [&] { return W(&ei).set("calcCurrentErrorNorm", rep); });
     }
     // ---- 4. locked / prescribed coordinates
     {
-        int bad = -1; for (int i = 0; i < qI.size(); ++i) if (P.fixedQ[i] && !P.prescQ[i] && !bitEq(qI[i], R.q0E[i])) bad = i;
-        std::string kind = !P.dynLock.empty() ? "dynlock" : !P.lockMob.empty() ? "lockMobilizer" : "lockQ";
-        if (!P.lockMob.empty() || !P.lockQ.empty() || !P.dynLock.empty())
-            c.require("asm-lock:" + api + ":" + kind, bad < 0, [&] { return W(&e).set("qIndex", bad).set("before", bad >= 0 ? R.q0E[bad] : 0.0).set("after", bad >= 0 ? qI[bad] : 0.0); });
+        int bad = -1; for (int i = 0; i < qI.size(); ++i) if (P.fixedQ[i] && !P.prescQ[i] && !bitEq(qI[i], R.q0E[i])) { bad = i; break; }
+        std::string kind = "lockQ";
+        if (bad >= 0) {
+            for (int k : P.lockMob) if (bad >= S.q0(k) && bad < S.q0(k) + S.nq(k)) kind = "lockMobilizer";
+            for (int k : P.dynLock) if (bad >= S.q0(k) && bad < S.q0(k) + S.nq(k)) kind = std::string("client-locked-mobilizer:") + (S.userEuler ? "euler" : "quat");
+        }
+        if (!P.lockMob.empty() || !P.lockQ.empty() || !P.dynLock.empty()) {
+            bool okLock = c.require("asm-lock:" + apiK + ":" + kind, bad < 0, [&] { return W(&e).set("qIndex", bad).set("before", bad >= 0 ? R.q0E[bad] : 0.0).set("after", bad >= 0 ? qI[bad] : 0.0); });
+            if (!okLock) return;      // everything downstream is a consequence
+        }
         if (!S.mots.empty()) {
             double worst = 0, amp = 1;
             for (auto& mo : S.mots) for (int i = 0; i < S.nq(mo.node); ++i) { worst = std::max(worst, std::fabs(qI[S.q0(mo.node) + i] - prescribedValue(mo, tI))); amp = std::max(amp, mo.amp); }
-            c.check("asm-prescribed:" + api, worst, 8 * EPS * amp, [&] { return W(&e).set("time", tI); });
-            c.check("asm-prescribed:time:" + api, std::fabs(tI - tAfterExpected), 0.0, [&] { return W(&e).set("time", tI).set("expected", tAfterExpected); });
+            c.check("asm-prescribed:" + apiK, worst, 8 * EPS * amp, [&] { return W(&e).set("time", tI); });
+            c.check("asm-prescribed:time:" + apiK, std::fabs(tI - tAfterExpected), 0.0, [&] { return W(&e).set("time", tI).set("expected", tAfterExpected); });
         }
         // in the client's own representation: a locked mobilizer has not moved
         State f = userAfter; f.updQ() = freshQ(userAfter.getQ()); S.m.sys.realize(f, Stage::Position);
@@ -541,19 +613,19 @@ static void judgeAssembler(Ctx& c, AsmRun& R, Assembler& A, const std::string& a
         if (!P.lockMob.empty()) c.check("asm-lock:client-mobilizer-moved:" + std::string(S.userEuler ? "euler" : "quat"), mv, 1e-12, [&] { return W(&e); });
     }
     // ---- 5. bounds
-    if (!P.bounds.empty()) { double w = 0; boundsOK(S, P, qI, &w); c.check("asm-bounds:" + api + (e.nErr > 0 ? ":ipopt" : ":lbfgsb"), std::max(w, 0.0), 0.0, [&] { return W(&e).set("excess", w); }); }
+    if (!P.bounds.empty()) { double w = 0; boundsOK(S, P, qI, &w); c.check("asm-bounds:" + apiK + (e.nErr > 0 ? ":ipopt" : ":lbfgsb"), std::max(w, 0.0), 0.0, [&] { return W(&e).set("excess", w); }); }
     // ---- 6. reported goal == goal of the returned configuration
     {
         double tg = 1e-9 * e.goal + 1e-12 * std::sqrt(e.goal * e.wsum) + 1e-24 * (1 + e.wsum);
         double cur = A.calcCurrentGoal();
-        c.check("asm-goal-reported:vs-calcCurrentGoal:" + api, std::fabs(reported - cur), 1e-12 * (cur + reported) + 1e-300, [&] { return W(&e).set("calcCurrentGoal", cur); });
+        c.check("asm-goal-reported:vs-calcCurrentGoal:" + apiK, std::fabs(reported - cur), 1e-12 * (cur + reported) + 1e-300, [&] { return W(&e).set("calcCurrentGoal", cur); });
         bool groundCase = e.groundMarkerActive;
         if (groundCase) {
             double alt = e.goal - P.WM * e.gM + P.WM * e.gMnoGround;     // documented: markers on Ground are ignored
             bool matchesDoc = std::fabs(reported - alt) <= tg, matchesCode = std::fabs(reported - e.goal) <= tg;
             if (!matchesDoc && matchesCode && std::fabs(alt - e.goal) > 10 * tg) c.viol("asm-goal-recomputed:ground-marker-not-ignored", W(&e).set("goalWithoutGroundMarkers", alt));
-            else c.check("asm-goal-recomputed:" + api, std::min(std::fabs(reported - alt), std::fabs(reported - e.goal)), tg, [&] { return W(&e); });
-        } else c.check("asm-goal-recomputed:" + api, std::fabs(reported - e.goal), tg, [&] { return W(&e); });
+            else c.check("asm-goal-recomputed:" + apiK, std::min(std::fabs(reported - alt), std::fabs(reported - e.goal)), tg, [&] { return W(&e); });
+        } else c.check("asm-goal-recomputed:" + apiK, std::fabs(reported - e.goal), tg, [&] { return W(&e); });
         if (R.M) { double w = 0; for (size_t i = 0; i < P.mk.size(); ++i) w = std::max(w, std::fabs(R.M->findCurrentMarkerError(Markers::MarkerIx((int)i)) - e.mErr[i])); c.check("asm-goal-parts:marker-error", w, 1e-11, [&] { return W(&e); }); }
         if (R.O) { double w = 0; for (size_t i = 0; i < P.os.size(); ++i) w = std::max(w, std::fabs(R.O->findCurrentOSensorError(OrientationSensors::OSensorIx((int)i)) - e.oErr[i])); c.check("asm-goal-parts:osensor-error", w, 1e-7, [&] { return W(&e); }); }
     }
@@ -566,19 +638,30 @@ static void judgeAssembler(Ctx& c, AsmRun& R, Assembler& A, const std::string& a
         bool feasible0 = e0.finite && e0.errNorm <= tol && boundsOK(S, P, qs);
         (void)tBefore;
         if (feasible0) {
-            c.obs("asm:feasible-start:" + api);
-            c.check("asm-goal-vs-start:" + api, e.goal - e0.goal, 1e-12 * (e0.goal + e.goal) + 1e-300, [&] { return W(&e).set("goalAtStart", e0.goal).set("errNormAtStart", e0.errNorm); });
-        } else c.obs("asm:infeasible-start:" + api);
+            c.obs("asm:feasible-start:" + apiK);
+            c.check("asm-goal-vs-start:" + apiK, e.goal - e0.goal, 1e-12 * (e0.goal + e.goal) + 1e-300, [&] { return W(&e).set("goalAtStart", e0.goal).set("errNormAtStart", e0.errNorm); });
+        } else c.obs("asm:infeasible-start:" + apiK);
     }
     // ---- 8. exactly achievable targets
-    if (achievableNow && smallStart && tol >= 1000 * acc && (P.hasM || P.hasO || e.gQ > 0 || !P.qv.empty()) ) {
-        if (e.goal <= tol * tol) c.check("asm-achievable:" + api, e.goal, tol * tol, [&] { return W(&e); });
-        else {
-            // not at zero: is it another stationary point (not judged) or a non-converged return?
-            double dq = 0; for (int i = 0; i < qI.size(); ++i) if (std::isfinite(qTargetE[i])) dq = std::max(dq, std::fabs(qI[i] - qTargetE[i]));
-            c.obs("asm:achievable-not-reached:" + api);
-            c.check("asm-achievable:" + api, e.goal, tol * tol, [&] { return W(&e).set("distanceFromTarget", dq); });
+    if (achievableNow && smallStart && tol >= 1000 * acc) {
+        const std::string opt = e.nErr > 0 ? "ipopt" : limits ? "lbfgsb" : "lbfgs";
+        if (e.goal <= tol * tol) c.check("asm-achievable:" + apiK + ":" + opt, e.goal, tol * tol, [&] { return W(&e); });
+        else if (throwsDuringCall > 0) {
+            // success was reported although the optimizer gave up (the library keeps the iterate if the
+            // assembly errors are within tolerance, without looking at the goal)
+            double pg = projectedGradient(S, P, R.twin, qI, tI);
+            c.viol("asm-achievable:optimizer-failure-swallowed:" + apiK, W(&e).set("swallowed", std::string(g_lastThrow)).set("tol2", tol * tol).set("optimizer", opt).set("projectedGradient", pg).set("numGrad", P.numGrad));
+        } else {
+            int nfree = 0; double xn = 0; for (int i = 0; i < qI.size(); ++i) if (!P.fixedQ[i] && !P.prescQ[i]) { ++nfree; xn += qI[i] * qI[i]; } xn = std::max(1.0, std::sqrt(xn));
+            double pg = projectedGradient(S, P, R.twin, qI, tI);
+            if (pg <= 1e3 * acc * xn + 1e-7) c.obs("asm:achievable-not-reached:other-stationary-point");   // global optimality is not claimed
+            else if (e.nErr >= nfree)
+                // as many (possibly redundant) error equations as free coordinates: the interior-point optimizer
+                // treats the problem as a square system and never looks at the goal
+                c.viol("asm-achievable:goal-ignored-square-system:" + apiK, W(&e).set("projectedGradient", pg).set("tol2", tol * tol).set("equations", e.nErr).set("freeQ", nfree));
+            else c.viol("asm-achievable:nonstationary-return:" + apiK + ":" + opt, W(&e).set("projectedGradient", pg).set("tol2", tol * tol).set("equations", e.nErr).set("freeQ", nfree));
         }
+        (void)qTargetE;
     }
 }
 
@@ -670,6 +753,7 @@ static void caseAssembler(Ctx& c, long idx, Rng& r, bool unlistedTail) {
     std::string api = viaState ? "assemble(State)" : "initialize+assemble";
     State user = R.user0; double reported = NaN; bool ok = false;
     c.setPhase("asm " + api);
+    long throws0 = g_throws;
     try {
         if (viaState) reported = A.assemble(user);
         else {
@@ -689,8 +773,8 @@ static void caseAssembler(Ctx& c, long idx, Rng& r, bool unlistedTail) {
     }
     if (!ok) { c.skip("assemble-failed-to-converge"); return; }
     c.obs("asm:assemble-ok"); c.cover(asmCoverKey(R, "assemble", "ok"));
-    c.obs(std::string("asm:optimizer:") + (A.getInternalState().getNQErr() > 0 && std::isinf(P.sysW) ? "ipopt" : P.bounds.empty() ? "lbfgs" : "lbfgsb"));
-    judgeAssembler(c, R, A, api, reported, user, R.q0E, S.t0, S.t0, P.achievable, P.delta <= 0.3, qTarget);
+    if (g_throws > throws0) c.obs("asm:optimizer-failure-swallowed:assemble");
+    judgeAssembler(c, R, A, api, reported, user, R.q0E, S.t0, S.t0, P.achievable, P.delta <= 0.3, qTarget, g_throws - throws0);
     if (c.wantSample()) c.sample(Json::obj().set("tool", "Assembler").set("model", S.m.desc.shortStr()).set("userEuler", S.userEuler).set("cons", S.conTypes()).set("kinds", P.kinds()).set("restr", P.restr()).set("goal", reported).set("tol", P.tolInUse()).set("acc", P.accInUse()));
 
     // ---- tracking frames
@@ -735,7 +819,7 @@ static void caseAssembler(Ctx& c, long idx, Rng& r, bool unlistedTail) {
         }
         bool wasInit = A.isInitialized();
         c.setPhase("asm track");
-        ok = false; reported = NaN;
+        ok = false; reported = NaN; throws0 = g_throws;
         try { reported = giveTime ? A.track(tNew) : A.track(); A.updateFromInternalState(user); ok = true; }
         catch (const std::exception& ex) {
             std::string w = ex.what();
@@ -745,7 +829,8 @@ static void caseAssembler(Ctx& c, long idx, Rng& r, bool unlistedTail) {
         if (!ok) break;
         c.obs("asm:track-ok"); c.cover(asmCoverKey(R, "track", "ok"));
         c.require("asm-track:reinitialized-by-frame-update", wasInit && A.getNumInitializations() == 1, [&] { return Json::obj().set("inits", A.getNumInitializations()); });
-        judgeAssembler(c, R, A, "track", reported, user, qBefore, tBefore, tExp, ach, true, qT);
+        if (g_throws > throws0) c.obs("asm:optimizer-failure-swallowed:track");
+        judgeAssembler(c, R, A, "track", reported, user, qBefore, tBefore, tExp, ach, true, qT, g_throws - throws0);
         qTarget = qT;
     }
 }
@@ -763,7 +848,7 @@ static double fitObjective(const Sys& S, const State& st, const std::vector<int>
 
 static void caseFitter(Ctx& c, long idx, Rng& r) {
     Sys S; c.setPhase("fit build");
-    SysOpts o; o.minBodies = 1; o.maxBodies = 5; o.maxCons = 1; o.pCons = 0.35; o.heavyCons = false;
+    SysOpts o; o.minBodies = 1; o.maxBodies = 5; o.maxCons = 1; o.pCons = 0.35; o.heavyCons = false; o.flags = true;
     if (!buildSys(c, r, idx, S, o, nullptr)) return;
     const int nb = S.nNodes(); const Vector& qRef = S.sRef.getQ();
     bool achievable = r.coin(0.5), weighted = r.coin(0.65);
@@ -804,7 +889,7 @@ static void caseFitter(Ctx& c, long idx, Rng& r) {
     {
         CoutSilencer quiet;
         try { rep = weighted ? ObservedPointFitter::findBestFit(S.m.sys, user, bix, st, tg, ws, tolerance) : ObservedPointFitter::findBestFit(S.m.sys, user, bix, st, tg, tolerance); ok = true; }
-        catch (const Exception::OptimizerFailed&) { c.obs("fit:optimizer-failed"); c.cover(key("failed")); }
+        catch (const Exception::OptimizerFailed& ex) { c.obs("fit:optimizer-failed"); c.obs("fit:fail:" + normMsg(ex.getMessageText())); c.cover(key("failed")); }
         catch (const std::exception& ex) {
             std::string w = ex.what();
             if (w.find("Optimizer failed") != std::string::npos || w.find("Ipopt") != std::string::npos || w.find("LBFGS") != std::string::npos) { c.obs("fit:optimizer-failed"); c.cover(key("failed")); }
@@ -818,6 +903,7 @@ static void caseFitter(Ctx& c, long idx, Rng& r) {
     auto W = [&] { return Json::obj().set("model", S.m.desc.shortStr()).set("userEuler", S.userEuler).set("cons", S.conTypes()).set("weighted", weighted).set("achievable", achievable)
                        .set("tolerance", tolerance).set("reportedRMS", rep).set("recomputedMeanSq", f1).set("initialMeanSq", f0).set("delta", delta); };
     if (!std::isfinite(rep) || !allFinite(user.getQ())) { c.viol("fit:nonfinite:" + mode, W()); return; }
+    for (auto& k : S.cons) if (k.c.isDisabled(user) != k.c.isDisabled(user0)) { c.viol("fit:client-settings:constraint-enable-flag-changed:" + mode, W()); return; }
     f1 = fitObjective(S, user, nodes, stn, tgt, wts); he1 = holoErrs(S, user);
     // reported RMS is sqrt((f+1)-1): absolute rounding eps*(1+f) in f
     c.check("fit-reported-rms:" + api, std::fabs(rep * rep - f1), 64 * EPS * (1 + f1) + 1e-9 * f1, W);
@@ -840,7 +926,7 @@ static double forceScale(const Sys& S, const State& st) {
 }
 static void caseLEM(Ctx& c, long idx, Rng& r) {
     Sys S; c.setPhase("lem build");
-    SysOpts o; o.minBodies = 1; o.maxBodies = 5; o.maxCons = 1; o.pCons = 0.4; o.heavyCons = false; o.flags = true;
+    SysOpts o; o.minBodies = 1; o.maxBodies = 3; o.maxCons = 1; o.pCons = 0.4; o.heavyCons = false; o.flags = true;
     std::string fkinds;
     auto addForces = [&](Sys& s, Rng& rr) {
         if (rr.coin(0.8)) { Force::UniformGravity(s.m.forces, s.m.matter, randVec3(rr, 6.0), rr.sym(1.0)); fkinds += "g"; }
@@ -866,7 +952,7 @@ static void caseLEM(Ctx& c, long idx, Rng& r) {
     {
         CoutSilencer quiet;
         try { LocalEnergyMinimizer::minimizeEnergy(S.m.sys, user, tolerance); ok = true; }
-        catch (const Exception::OptimizerFailed&) { c.obs("lem:optimizer-failed"); c.cover(key("failed")); }
+        catch (const Exception::OptimizerFailed& ex) { c.obs("lem:optimizer-failed"); c.obs("lem:fail:" + normMsg(ex.getMessageText())); c.cover(key("failed")); }
         catch (const std::exception& ex) {
             std::string w = ex.what();
             if (w.find("Optimizer failed") != std::string::npos || w.find("Ipopt") != std::string::npos || w.find("LBFGS") != std::string::npos) { c.obs("lem:optimizer-failed"); c.cover(key("failed")); }
@@ -899,14 +985,15 @@ static void caseLEM(Ctx& c, long idx, Rng& r) {
 int main(int argc, char** argv) {
     Args a = parseArgs(argc, argv);
     Ctx c(a);
+    g_verbose = a.verbose; g_forceNumGrad = (int)a.getInt("numgrad", -1); g_forceNumJac = (int)a.getInt("numjac", -1);
     if (a.prop != "C43") { fprintf(stderr, "mon_assembly: unknown property %s\n", a.prop.c_str()); return 2; }
     const bool unlistedTail = a.getInt("unlisted-tail", 0) != 0;
     const std::string only = a.get("tool", "");
     return runCases(c, [&](long i, Rng& r) {
-        int t = (int)(i % 5);     // 0,1,2 Assembler; 3 fitter; 4 energy minimizer
-        if (only == "asm") t = 0; else if (only == "fit") t = 3; else if (only == "lem") t = 4;
-        if (t <= 2) caseAssembler(c, i, r, unlistedTail);
-        else if (t == 3) caseFitter(c, i, r);
+        int t = (int)(i % 8);     // 0-4 Assembler; 5,6 fitter; 7 energy minimizer
+        if (only == "asm") t = 0; else if (only == "fit") t = 5; else if (only == "lem") t = 7;
+        if (t <= 4) caseAssembler(c, i, r, unlistedTail);
+        else if (t <= 6) caseFitter(c, i, r);
         else caseLEM(c, i, r);
     });
 }
